@@ -79,4 +79,19 @@ example : ((Cli.okOf (Cli.parseArgs [] [b!"--dry-run", b!"--path", b!"src", b!"-
 theorem preview_starts_the_same_exporter (c : Pipes.Caps) (o : Cli.CliOpts) (b : Bool) :
     Pipes.exportCmd c { o with dryRun := b } = Pipes.exportCmd c o := Pipes.export_ignores_dry_run c o b
 
+
+/-! ### the model of the command line knows exactly the flags the code knows (obligation over the extracted table) -/
+
+/-- the flag names of the model of `parse_args` -/
+def modelFlagNames : List Bytes :=
+  Cli.flags0.map (·.name) ++ (Cli.flags1 []).map (·.name) ++ [b!"--cleanup"]
+
+/-- **Every literal arm of `match arg.as_str()` in `parse_args` (extracted from /repo on this run) is a flag of the model,
+    and the other way round; the only `starts_with` arm is `--cleanup=`.** A flag added to, removed from or renamed in the
+    code breaks this obligation before any command line is generated. -/
+theorem cli_model_knows_every_flag :
+    (Extracted.cliFlagArms.all fun a => modelFlagNames.contains a) = true ∧
+    (modelFlagNames.all fun a => Extracted.cliFlagArms.contains a) = true ∧
+    Extracted.cliPrefixArms = [b!"--cleanup="] := by decide +kernel
+
 end Frrs.C11
